@@ -149,6 +149,12 @@ func (c *Ctx) CheckProperty(id string) (*Result, error) {
 	}
 	start := time.Now()
 	res := &Result{Prop: id}
+	// replay files of earlier runs of this property are stale
+	if old, _ := filepath.Glob(filepath.Join(c.Opt.VerifDir, "replays", id+"-*.json")); len(old) > 0 {
+		for _, f := range old {
+			os.Remove(f)
+		}
+	}
 	var funcs []*govc.FuncReport
 	var trusted []string
 	var notes []string
@@ -210,7 +216,7 @@ func (c *Ctx) CheckProperty(id string) (*Result, error) {
 		} else {
 			for _, name := range cfg.Syntactic {
 				for _, o := range govc.Syntactic(p, name, id) {
-					res.Obls = append(res.Obls, &Obl{ID: o.ID, Engine: "S syntactic", Kind: o.Kind, Func: o.Func, Pos: o.Pos, Text: o.Text, Status: o.Status, Backend: o.Backend, Reason: o.Reason})
+					res.Obls = append(res.Obls, &Obl{ID: o.ID, Engine: "S syntactic", Kind: o.Kind, Func: o.Func, Pos: o.Pos, Text: o.Text, Status: o.Status, Backend: o.Backend, Reason: o.Reason, Model: o.Model})
 				}
 			}
 		}
